@@ -203,4 +203,56 @@ theorem eval_ownerIsSystem {a : NAcct} (ha : Key32 a.a.owner) :
     have hne : a.a.owner ≠ systemId := fun he => by rw [this.mpr he] at h; cases h
     simp [evalCheck, h, hne]
 
+/-! ## Sequence carriers with argument lists -/
+
+/-- With at least as many arguments as elements, the pairwise loop accepts iff EVERY element has an
+argument at its index and accepts under it — no element escapes validation. -/
+theorem validateZip_ok_iff {α β : Type} (v : α → β → Except Err Unit) (xs : List β) (as : List α)
+    (h : xs.length ≤ as.length) :
+    validateZip v xs as = .ok () ↔
+      ∀ (i : Nat) x, xs[i]? = some x → ∃ a, as[i]? = some a ∧ v a x = .ok () := by
+  induction xs generalizing as with
+  | nil => simp [validateZip]
+  | cons x xs ih =>
+    cases as with
+    | nil => simp at h
+    | cons a as =>
+      have h' : xs.length ≤ as.length := by simpa using h
+      simp only [validateZip]
+      constructor
+      · intro hz i y hy
+        cases hv : v a x with
+        | error e => rw [hv] at hz; cases hz
+        | ok u =>
+          cases u
+          rw [hv] at hz
+          cases i with
+          | zero => simp at hy; subst hy; exact ⟨a, by simp, hv⟩
+          | succ i =>
+            simp only [List.getElem?_cons_succ] at hy ⊢
+            exact (ih as h').mp hz i y hy
+      · intro hall
+        obtain ⟨a', ha', hv⟩ := hall 0 x (by simp)
+        simp at ha'; subst ha'
+        rw [hv]
+        exact (ih as h').mpr (fun i y hy => by
+          have := hall (i + 1) y (by simpa using hy)
+          simpa using this)
+
+/-- A failing pairwise loop reports the error of the FIRST failing element. -/
+theorem validateZip_error_first {α β : Type} (v : α → β → Except Err Unit) (x : β) (xs : List β)
+    (a : α) (as : List α) (e : Err) (h : v a x = .error e) :
+    validateZip v (x :: xs) (a :: as) = .error e := by
+  simp [validateZip, h]
+
+theorem validateZip_replicate {α β : Type} (v : α → β → Except Err Unit) (xs : List β) (a : α) :
+    validateZip v xs (List.replicate xs.length a) = .ok () ↔ ∀ x ∈ xs, v a x = .ok () := by
+  induction xs with
+  | nil => simp [validateZip]
+  | cons x xs ih =>
+    simp only [List.length_cons, List.replicate_succ, validateZip, List.forall_mem_cons]
+    cases v a x with
+    | error e => simp
+    | ok u => cases u; simpa using ih
+
 end Account.Nests
